@@ -22,7 +22,8 @@ Attrs == <<
   [n |-> "volumes", k |-> "volumes", alts |-> {Sq1(BindVol("./data", "/data")), Sq1(BindVol("./other", "/data")), Sq1(BindVol("./more", "/more"))}],
   [n |-> "logging", k |-> "logging", alts |-> {M2("driver", S("json-file"), "options", M1("max-size", S("1m"))), M1("options", M1("max-file", S("3"))), M1("driver", S("json-file")), M2("driver", S("syslog"), "options", M1("tag", S("t")))}],
   [n |-> "healthcheck", k |-> "healthcheck", alts |-> {M2("test", Sq2(S("CMD"), S("true")), "interval", S("10s")), M1("test", S("curl -f localhost")), M1("retries", I(3))}],
-  [n |-> "depends_on", k |-> "depends_on", alts |-> {Sq1(S("b")), M1("b", M1("condition", S("service_healthy")))}],
+  \* zdep: a service the harness adds to the main file of every case
+  [n |-> "depends_on", k |-> "depends_on", alts |-> {Sq1(S("zdep")), M1("zdep", M1("condition", S("service_healthy"))), M1("zdep", M2("condition", S("service_started"), "required", B(FALSE)))}],
   [n |-> "reset", k |-> "environment", alts |-> {Sq1(S("A=1")), Tagged(Null, "reset")}]
 >>
 Names == <<"web.api", "b", "c.v2">>     \* service names may contain dots (a path separator inside the library)
